@@ -1,1 +1,5 @@
+pub mod common;
 pub mod c02;
+pub mod c03;
+pub mod c11;
+pub mod c15;
